@@ -67,12 +67,12 @@ public:
   double randC() const
   {
     double x = RandomTools::randGamma(getParameterValue("alpha"),
-          getParameterValue("beta"));
+          getParameterValue("beta")) + offset_;
     while (!intMinMax_->isCorrect(x))
       x = RandomTools::randGamma(getParameterValue("alpha"),
-            getParameterValue("beta"));
+            getParameterValue("beta")) + offset_;
 
-    return x + offset_;
+    return x;
   }
 
   double qProb(double x) const;
